@@ -1,7 +1,7 @@
 #!/bin/sh
 # usage: build_driver.sh m|g   -- extract and build /verif/build/ml_<x>/driver
 set -e
-V=/verif
+V=$(cd "$(dirname "$0")/.." && pwd)
 X=$1
 D=$V/build/ml_$X
 rm -rf $D && mkdir -p $D && cd $D
